@@ -107,7 +107,7 @@ VALUE_POOL = [
 def wfc_state(node, k):
     """State returned by poll k of a wait_for_condition node (k = 0: the configured initial state)."""
     if k == 0:
-        return node.get("init", {"n": 0, "h": []})
+        return copy.deepcopy(node.get("init", {"n": 0, "h": []}))
     if "states" in node:
         st = node["states"]
         v = st[min(k, len(st)) - 1]
@@ -184,6 +184,9 @@ class Recorder:
         self.delivered.setdefault(path, []).append((self.inv, kind, rep))
         oid = path_id(path) if not path.endswith("#cb") else path_id(path[:-3])
         rec = self.backend.ops.get(oid)
+        if rec is None and oid.startswith("unknown:"):
+            # below a context opened by a user thread the id depends on the arrival order: find the operation by its name
+            rec = next((r for r in self.backend.ops.values() if r.get("Name") == path), None)
         self.log("Deliver", path=path, kind=kind, rep=rep[:160], be=rec["Status"] if rec else None)
 
     def gate(self, name):
@@ -257,7 +260,8 @@ def build_handler(prog: dict, rec: Recorder):
             k = node["k"]
             if k == "log":
                 rec.log("LogCall", pt=f"{prefix}@{node['pt']}")
-                ctx.logger.info(f"{prefix}@{node['pt']}")
+                # every level of the logger interface is replay-aware (lvl: debug / info / warning / error / exception)
+                getattr(ctx.logger, node.get("lvl", "info"))(f"{prefix}@{node['pt']}")
                 continue
             i += 1
             run_node(ctx, node, f"{prefix}{i}", obs)
@@ -361,6 +365,11 @@ def build_handler(prog: dict, rec: Recorder):
                     rec.fn_exit(path, False)
                     raise UserError(f"poll fail {path} a{attempt}")
                 new = wfc_state(node, attempt)
+                if node.get("mutate_state") and isinstance(state, dict):
+                    # a check function that updates the state object it was given IN PLACE and returns it
+                    state.clear()
+                    state.update(new if isinstance(new, dict) else {"v": new})
+                    new = state
                 rec.fn_exit(path, True)
                 return new
 
@@ -411,8 +420,10 @@ def build_handler(prog: dict, rec: Recorder):
             ths = [ds.Thread(target=worker, args=(j, body), name=f"user-{path}-{j}") for j, body in enumerate(node["bodies"])]
             for th in ths:
                 th.start()
-            for th in ths:
-                th.join()
+            if not node.get("nojoin"):
+                for th in ths:
+                    th.join()
+            # (nojoin: the handler goes on - and may return - while its helper threads are still inside durable calls)
         elif k == "wfcb":
             def submitter(cbid, wctx, path=path):
                 # the submitter runs inside step "<path>/2"
